@@ -40,10 +40,12 @@ CHECKS = {
 }
 
 checks = []
-EXTRA = {'C02': ' Workloads also vary what only inputs can show: Vec inputs with spare capacity, child types without drop glue, zero-sized outputs/items (engine Z), children whose destructor wakes a waker.', 'C03': ' An engine-T layer repeats the invariant with wakers fired from other threads. Streams are additionally polled by the consumer after their final None (stale wakes in between); a quarter of the std shards run a build without debug assertions.', 'C11': " 'Mass' histories (11-18 members inserted in a burst, degenerate scripts) make ten and more members finish in one poll; an engine-T layer fires the members' wakers from other threads.", 'C12': " 'Mass' histories (11-18 members inserted in a burst, degenerate scripts) make ten and more members end in one poll; an engine-T layer fires the members' wakers from other threads.", 'C14': ' After the first Err no in-flight work future may be driven to completion, and the operation must not remain Pending at quiescence even if siblings never complete.', 'C15': ' Items taken OUT OF THE SOURCE are bounded by take(n) as well (an item pulled and thrown away is lost); non-fused sources, huge limits, zero-sized items.', 'C16': ' An engine-T layer checks the same invariant under wake-ups from other threads (announced / in-flight wake-call accounting).', 'C17': ' 4 % long runs (530-830 yields), one or two always-ready inputs, Vec merges of 24..129 inputs, and an engine-T layer (fairness under wake-ups from other threads).', 'C20': " An engine-T layer repeats this with the siblings' wakers fired from other threads.", 'C19': ' Flat wait_until streams also get non-fused inner streams (the consumer polls on after None and the wrapper must forward), and inner streams with exact size hints; an engine-T layer fires the deadline\'s and the inner child\'s wakers from other threads.'}
+EXTRA = {'C13': ' Both tiers also run an exhaustive small-scope sweep of pipelines (fcv dfsc: every adapter stack x for_each x source kind, source length <= 2 (thorough: <= 3), limits 1|2|none, every readiness pattern of source / map / closure futures and every wake order).', 'C02': ' Workloads also vary what only inputs can show: Vec inputs with spare capacity, child types without drop glue, zero-sized outputs/items (engine Z), children whose destructor wakes a waker.', 'C03': ' An engine-T layer repeats the invariant with wakers fired from other threads. Streams are additionally polled by the consumer after their final None (stale wakes in between); a quarter of the std shards run a build without debug assertions.', 'C11': " Both tiers also run an exhaustive small-scope sweep of operation histories (fcv dfsb: every history of <= 8 operations over <= 3 members with <= 1 Pending step each, plain and keyed, with_capacity(0|1), 2 configurations; evidence records exhausted=true only if every odometer wrapped). 'Mass' histories (11-18 members inserted in a burst, degenerate scripts) make ten and more members finish in one poll; an engine-T layer fires the members' wakers from other threads.", 'C12': " Both tiers also run an exhaustive small-scope sweep of operation histories (fcv dfsb: every history of <= 7 operations over <= 2 members with <= 1 Pending step and <= 1 item each, plain and keyed, with_capacity(0|1), 2 configurations). 'Mass' histories (11-18 members inserted in a burst, degenerate scripts) make ten and more members end in one poll; an engine-T layer fires the members' wakers from other threads.", 'C14': ' Both tiers also run an exhaustive small-scope sweep of pipelines (fcv dfsc: every adapter stack x fallible terminal x source kind, source length <= 2 (thorough: <= 3), every readiness pattern of source / map / work futures, every Ok/Err assignment, every wake order). After the first Err no in-flight work future may be driven to completion, and the operation must not remain Pending at quiescence even if siblings never complete.', 'C15': ' Both tiers also run an exhaustive small-scope sweep of pipelines (fcv dfsc: 29 adapter stacks x 3 terminals x 2 source kinds, source length <= 2 (thorough: <= 3), limits 1|2|none, takes 0|1|2|100, every readiness pattern and wake order). Items taken OUT OF THE SOURCE are bounded by take(n) as well (an item pulled and thrown away is lost); non-fused sources, huge limits, zero-sized items.', 'C16': ' An engine-T layer checks the same invariant under wake-ups from other threads (announced / in-flight wake-call accounting).', 'C17': ' 4 % long runs (530-830 yields), one or two always-ready inputs, Vec merges of 24..129 inputs, and an engine-T layer (fairness under wake-ups from other threads).', 'C20': " An engine-T layer repeats this with the siblings' wakers fired from other threads.", 'C19': ' Flat wait_until streams also get non-fused inner streams (the consumer polls on after None and the wrapper must forward), and inner streams with exact size hints; an engine-T layer fires the deadline\'s and the inner child\'s wakers from other threads.'}
 
 for pid, (tech, text, ref) in CHECKS.items():
     text += EXTRA.get(pid, "")
+    if pid in ("C11", "C12", "C13", "C14", "C15"):
+        tech += "; exhaustive small-scope enumeration of " + ("operation histories" if pid in ("C11", "C12") else "pipelines, readiness patterns and wake orders")
     if pid in ("C04", "C05", "C06", "C07", "C08", "C09", "C10"):
         text += SWEEP_NOTE
         tech += "; exhaustive small-scope schedule enumeration"
@@ -70,7 +72,7 @@ manifest = dict(
         add_only=True,
     ),
     engines=[
-        dict(name="fcv", path="harness/", serves_properties=list(CHECKS.keys()), kind_free_text="Rust harness crate: scripted children + adversarial executor + event log + reference models (engines A static shapes, B group histories, C concurrent-stream pipelines, T real threads, Z zero-sized types), run natively, under Miri, ASan, valgrind and TSan by ./check; fcv dfs = exhaustive small-scope sweep, fcv allk = every-crash-point sweep"),
+        dict(name="fcv", path="harness/", serves_properties=list(CHECKS.keys()), kind_free_text="Rust harness crate: scripted children + adversarial executor + event log + reference models (engines A static shapes, B group histories, C concurrent-stream pipelines, T real threads, Z zero-sized types), run natively, under Miri, ASan, valgrind and TSan by ./check; fcv dfs / dfsb / dfsc = exhaustive small-scope sweeps (flat shapes / group histories / pipelines), fcv allk = every-crash-point sweep"),
     ],
     checks=checks,
     notes="Runtime monitoring only. ./check rebuilds the harness against /repo's working tree (content-hash keyed). Three genuine defects were repaired in /repo with 'fix:' commits (see known_findings.json and DESIGN.md section 8).",
